@@ -218,6 +218,8 @@ int main(int argc, char **argv)
                             defined = c != nullptr;
                             if (defined) right = c->id() == "theid";
                         }
+                        std::string whyNot;
+                        if (!publicCoherent(a, whyNot)) _exit(6);
                         if (!defined && a->issueCount() == 0) _exit(3);
                         if (defined && !right) _exit(4);
                         bool expectDefined = index < 0 ? count == 1 : index < count;
@@ -230,6 +232,7 @@ int main(int argc, char **argv)
                     if (WIFSIGNALED(st)) why = "the real code crashed (signal)";
                     else if (WEXITSTATUS(st) == 3) why = "the lookup failed (undefined item / null) with an empty issue list";
                     else if (WEXITSTATUS(st) == 4) why = "the lookup returned an item that does not carry the identifier";
+                    else if (WEXITSTATUS(st) == 6) why = "after the lookup the annotator's issue accessors are incoherent (an issue listed under a level it does not have, counts that do not add up, or an accessor that throws)";
                     else if (WEXITSTATUS(st) == 5) why = "the lookup result does not match the number of items carrying the identifier";
                     if (why) {
                         printf("LOOKUPS violates=1 scenario=%s(\"theid\"%s%s),items-with-that-id=%d why=%s%s\n", kind ? "component" : "item", index < 0 ? "" : ",", index < 0 ? "" : std::to_string(index).c_str(), count, why,
